@@ -2,6 +2,7 @@ package ipc
 
 import (
 	"fmt"
+	"go/token"
 	"go/types"
 	"sort"
 	"strings"
@@ -33,8 +34,8 @@ func runC12(c *Ctx) {
 	c.Rule("C12.N", "possibly-nil messages are nil-checked by the receiving goroutine (= C07.N)", 2)
 	ruleShimNilMessages(c, p, "C12.N")
 	c.Rule("C12.A", "every endpoint path answers once, with an allowed status", 15)
-	c.Rule("C12.U", "unknown or closed sessions are rejected with 400 and forgotten; received messages are delivered first", 15)
-	c.Rule("C12.L", "connection lifecycle pairing", 7)
+	c.Rule("C12.U", "unknown or closed sessions are rejected with 400 and forgotten; received messages are delivered first", 16)
+	c.Rule("C12.L", "connection lifecycle pairing", 8)
 
 	ruleShimChannels(c, p, "C12.C", "C12.B")
 	c.Rule("C12.S", "concurrent opens get distinct session IDs (a shared ID orphans a connection that close can never reach)", 2)
@@ -256,6 +257,53 @@ func runC12(c *Ctx) {
 		}
 	}
 	ruleForgetSites(c, p, "C12.U", se)
+	// keys of the session table are of a comparable static type: an interface-typed key
+	// decoded from the body may hold a slice or map, and sync.Map panics on those
+	{
+		n, bad := 0, ""
+		for _, fn := range p.FuncsIn("agent/websockets") {
+			for _, call := range Calls(fn, "(*sync.Map).Load", "(*sync.Map).Store", "(*sync.Map).Delete", "(*sync.Map).LoadOrStore", "(*sync.Map).LoadAndDelete", "(*sync.Map).Swap", "(*sync.Map).CompareAndSwap", "(*sync.Map).CompareAndDelete") {
+				n++
+				k := Args(CallOf(call))[1]
+				var okKey func(v ssa.Value, d int) bool
+				okKey = func(v ssa.Value, d int) bool {
+					switch x := v.(type) {
+					case *ssa.MakeInterface:
+						return types.Comparable(x.X.Type()) && !types.IsInterface(x.X.Type())
+					case *ssa.Const:
+						return true
+					case *ssa.Phi:
+						if d > 4 {
+							return false
+						}
+						for _, e := range x.Edges {
+							if !okKey(e, d+1) {
+								return false
+							}
+						}
+						return true
+					case *ssa.Parameter:
+						// a new helper's parameter: judge the call sites' arguments
+						args := helperParamArgs(x)
+						if len(args) == 0 || d > 4 {
+							return false
+						}
+						for _, a := range args {
+							if !okKey(a, d+1) {
+								return false
+							}
+						}
+						return true
+					}
+					return false
+				}
+				if !okKey(k, 0) {
+					bad = "the key " + PathOf(k) + " at " + p.Pos(call.Pos()) + " is not of a comparable concrete type"
+				}
+			}
+		}
+		c.Check("C12.U", "session-table:keys-are-hashable", p, 0, n >= 4 && bad == "", fmt.Sprintf("%d accesses of the session table use keys of a comparable concrete type (string)", n), bad+": a value decoded from the call's body into an interface can be a JSON array or object, and sync.Map panics with 'hash of unhashable type' — the call gets no answer and, on the agent's worker goroutine, the process dies")
+	}
 	ruleClosedCheckedBeforeEnqueue(c, p, "C12.U")
 	// who may forget a session: only close (before closing) and the failed-poll branch
 	for name, fn := range se.all() {
@@ -361,6 +409,66 @@ func runC12(c *Ctx) {
 		} else {
 			c.Bad("C12.L", "closer:closes-backend-after-done", p, nc.Pos(), "no goroutine closes the backend websocket: closing a session (or a backend error) leaks the socket and never unblocks the reader")
 		}
+		// what the endpoints see as "connection ended" is the per-connection context the
+		// goroutines cancel, not a longer-lived one
+		okDone, whyDone := false, "the Connection literal's done field was not found"
+		for _, al := range AllocsOf(nc, "agent/websockets.Connection") {
+			v, has := LiteralField(al, "done")
+			if !has {
+				continue
+			}
+			okDone, whyDone = true, ""
+			for _, r := range Roots(v) {
+				mc, isMC := r.(*ssa.MakeClosure)
+				fn, _ := func() (*ssa.Function, bool) {
+					if !isMC {
+						return nil, false
+					}
+					f, ok := mc.Fn.(*ssa.Function)
+					return f, ok
+				}()
+				if fn == nil || !isBoundWrapper(fn) || len(mc.Bindings) != 1 || !strings.HasSuffix(fn.Name(), "Done$bound") {
+					okDone, whyDone = false, "done is "+PathOf(v)+", not the Done method of a context"
+					continue
+				}
+				bound := mc.Bindings[0]
+				// `ctx, cancel := context.WithCancel(ctx)` re-assigns a captured variable: take
+				// the value the cell holds where the method value is made
+				for k := 0; k < 4; k++ {
+					x := bound
+					for {
+						if mi, isMI := x.(*ssa.MakeInterface); isMI {
+							x = mi.X
+							continue
+						}
+						if ct, isCT := x.(*ssa.ChangeInterface); isCT {
+							x = ct.X
+							continue
+						}
+						break
+					}
+					ld, isLd := x.(*ssa.UnOp)
+					if !isLd || ld.Op != token.MUL {
+						break
+					}
+					cell, isCell := ld.X.(*ssa.Alloc)
+					if !isCell {
+						break
+					}
+					v := cellValueAt(cell, ld, 0)
+					if v == nil {
+						break
+					}
+					bound = v
+				}
+				for _, b := range Roots(bound) {
+					if CallResult(b, 0, "context.WithCancel") == nil {
+						okDone, whyDone = false, "done is the Done method of "+PathOf(bound)+", not of the context returned by context.WithCancel in NewConnection"
+					}
+				}
+			}
+		}
+		c.Check("C12.L", "Connection.done:is-the-cancelled-context", p, nc.Pos(), okDone, "Connection.done is Done of the context that reader and writer cancel on exit: once the backend closed (or a write failed) data/close calls see the session as ended", whyDone+": after the backend closes first the endpoints never learn that the connection ended — data calls are answered 200 while their messages pile up behind a writer that has exited, and once the queue is full they (and close) block for ever")
 		// dial error path cancels
 		if d := c.UniqueCall("C12.L", p, nc, false, "(*github.com/gorilla/websocket.Dialer).Dial", "(*github.com/gorilla/websocket.Dialer).DialContext"); d != nil {
 			var ifi *ssa.If
